@@ -148,6 +148,11 @@ def specClauses (s : SpecIn) : List String :=
       (if s.tls then recv s.out tlsh == [l2s s.cfg.tlsHeaderValue] else recv s.out tlsh == [])) ++
   -- X-Forwarded-Proto and Forwarded are supplied when absent and describe the actual connection
   c "xfproto" (!firstHop || recv s.out "X-Forwarded-Proto" == [plainOrTls]) ++
+  -- a client Forwarded header that says nothing about the protocol does not change that
+  c "xfproto-forwarded-without-proto" (
+      !(sentFirst s.wire "X-Forwarded-Proto" == "" && sentFirst s.wire "Forwarded" != "" &&
+        (afterSub "proto=".toList (s2l (sentFirst s.wire "Forwarded"))).isNone) ||
+      mgd "X-Forwarded-Proto" || mgd "Forwarded" || recv s.out "X-Forwarded-Proto" == [plainOrTls]) ++
   c "forwarded" (!firstHop ||
       ((recv s.out "Forwarded").length == 1 &&
         (let f := (recv s.out "Forwarded").headD ""
